@@ -192,11 +192,17 @@ func sysLegN(c *core.Ctx, quick, thorough int) {
 			}
 		}
 		for _, d := range r.Divergences {
+			if !c.InScope(d.Corr) {
+				continue
+			}
 			if len(c.Res.Divergences) < 20 {
 				c.Res.Divergences = append(c.Res.Divergences, d)
 			}
 		}
 		for _, f := range r.Failures {
+			if !c.InScope(f.Oracle) {
+				continue
+			}
 			cnt := 0
 			for _, g := range c.Res.Failures {
 				if g.Oracle == f.Oracle && g.Known == f.Known {
@@ -294,6 +300,13 @@ type sysEnv struct {
 	srv  *httptest.Server
 	raw  *http.Client
 	slog *c14LockedBuf
+	// transports (added for the assembly leg, asm.go; zero values = the in-process transports of SYS)
+	baseURL   string                                                       // scheme://host:port[/base-path] in front of /api/…
+	smtpPlay  func(lines [][]byte, cut int, awaitLast bool) dialogueResult // nil: smtpStack.play on a net.Pipe
+	popDial   func() (net.Conn, error)                                     // nil: a net.Pipe handed to VerifStartSession
+	rhost     string                                                       // the peer name in the Received header ("" = "pipe")
+	domain    string                                                       // SMTP greeting domain ("" = "inbucket.test")
+	afterSMTP func(d smtpDialogue, cut int, res *dialogueResult)           // extra implementation-only oracles on one played connection (nil: none)
 	// per scenario
 	s *sysScn
 }
@@ -380,6 +393,7 @@ func (e *sysEnv) setup() {
 	e.srv = httptest.NewUnstartedServer(web.Router)
 	e.srv.Config.ErrorLog = log.New(e.slog, "", 0)
 	e.srv.Start()
+	e.baseURL = e.srv.URL
 	e.raw = &http.Client{Timeout: sysWait, CheckRedirect: func(*http.Request, []*http.Request) error { return http.ErrUseLastResponse }}
 }
 
@@ -615,7 +629,7 @@ func (e *sysEnv) http(method, name, id, suffix, body string) sysResp {
 	case "false":
 		rd = strings.NewReader(`{"seen":false}`)
 	}
-	req, err := http.NewRequest(method, e.srv.URL+path, rd)
+	req, err := http.NewRequest(method, e.baseURL+path, rd)
 	if err != nil {
 		return sysResp{err: err}
 	}
@@ -927,11 +941,22 @@ type sysPopRun struct {
 func (e *sysEnv) popRun(cmds []popCmd, drop bool) sysPopRun {
 	s := e.s
 	s.sessions++
-	sconn, cconn := net.Pipe()
-	vs := s.pop.VerifStartSession(s.sessions, sconn)
+	var res sysPopRun
+	var cconn net.Conn
+	var vs *pop3.VerifSession
+	if e.popDial != nil {
+		var err error
+		if cconn, err = e.popDial(); err != nil {
+			res.err = fmt.Errorf("connecting: %v", err)
+			return res
+		}
+	} else {
+		var sconn net.Conn
+		sconn, cconn = net.Pipe()
+		vs = s.pop.VerifStartSession(s.sessions, sconn)
+	}
 	defer cconn.Close()
 	br := bufio.NewReaderSize(cconn, 1<<16)
-	var res sysPopRun
 	g, err := popReadReply(cconn, br, false)
 	if err != nil {
 		res.err = fmt.Errorf("greeting: %v", err)
@@ -964,6 +989,9 @@ func (e *sysEnv) popRun(cmds []popCmd, drop bool) sysPopRun {
 	}
 	if !ended || drop {
 		cconn.Close()
+	}
+	if vs == nil { // a real TCP connection: the server closing it (eof) is all a client can see
+		return res
 	}
 	if !popWait(vs.Done, sysWait) {
 		res.err = fmt.Errorf("the session goroutine is still running %v after the client left", sysWait)
@@ -1374,7 +1402,12 @@ func (e *sysEnv) smtpOp(r *rand.Rand) {
 			cut = r.Intn(total + 1)
 		}
 	}
-	res := s.stack.play(d.lines, cut, true)
+	var res dialogueResult
+	if e.smtpPlay != nil {
+		res = e.smtpPlay(d.lines, cut, true)
+	} else {
+		res = s.stack.play(d.lines, cut, true)
+	}
 	e.c.H("op:smtp")
 	if cut >= 0 {
 		e.c.H("smtp:connection-cut")
@@ -1394,6 +1427,9 @@ func (e *sysEnv) smtpOp(r *rand.Rand) {
 		e.fail("smtp-session-works", fmt.Sprintf("wedged=%v, no reply to line %d", res.wedged, res.noReply), "")
 		s.bad = true
 		return
+	}
+	if e.afterSMTP != nil {
+		e.afterSMTP(d, cut, &res)
 	}
 	seg := e.settle()
 	var clock []string
@@ -1519,6 +1555,12 @@ func (e *sysEnv) smtpOp(r *rand.Rand) {
 	ml := s.stack.modelLine(res.written, d.blocks, "-")
 	ml = "smtp" + strings.TrimPrefix(ml, "run")
 	ml = strings.Replace(ml, " ts="+core.HexS("TS")+" ", " ts="+core.HexS(sysTS)+" ", 1)
+	if e.rhost != "" {
+		ml = strings.Replace(ml, " rhost="+core.HexS("pipe")+" ", " rhost="+core.HexS(e.rhost)+" ", 1)
+	}
+	if e.domain != "" {
+		ml = strings.Replace(ml, " domain="+core.HexS("inbucket.test")+" ", " domain="+core.HexS(e.domain)+" ", 1)
+	}
 	if len(clock) == 0 {
 		ml += " clock=-"
 	} else {
